@@ -173,6 +173,46 @@ impl Synth {
         }
     }
 
+    // ---------------------------------------------------------------- constructors
+    pub fn constructors(&mut self, ctx: &mut Ctx, n: usize) {
+        use midnight_proofs::poly::kzg::msm::MSMKZG;
+        let mut rng = ctx.rng("c15:constructors");
+        for i in 0..n {
+            // MSMKZG::from_many
+            let parts: Vec<Vec<T>> = (0..i % 4)
+                .map(|_| (0..rng.gen_range(0..4)).map(|_| T { s: rand_scalar(&mut rng), b: rand_log(&mut rng), l: rand_label(&mut rng) }).collect())
+                .collect();
+            let reals: Vec<MSMKZG<E>> = parts.iter().map(|p| real_msm(p, &mut self.pts)).collect();
+            let m = MSMKZG::<E>::from_many(reals);
+            let line = format!("msm-from-many {}", parts.iter().map(|p| terms_str(p)).collect::<Vec<_>>().join(" "));
+            ctx.case("msm-from-many", true, line.trim_end(), &format!("{} {}", msmkzg_str(&m, &self.pts), affine_str(&m.eval())));
+            // MSMKZG::from_base
+            let b = rand_log(&mut rng);
+            let m = MSMKZG::<E>::from_base(&self.pts.pt(b));
+            ctx.case("msm-from-base", true, &format!("msm-from-base {}", fe_hex(&b)), &format!("{} {}", msmkzg_str(&m, &self.pts), affine_str(&m.eval())));
+            // Msm::new / Msm::from_terms: equal lengths or an assertion failure
+            let nb = rng.gen_range(0..4usize);
+            let ns = if i % 3 == 0 { rng.gen_range(0..4usize) } else { nb };
+            let bases: Vec<F> = (0..nb).map(|_| rand_log(&mut rng)).collect();
+            let scalars: Vec<F> = (0..ns).map(|_| rand_scalar(&mut rng)).collect();
+            let fixed: Vec<(String, F)> = if i % 2 == 0 { vec![] } else { vec![("zz".to_string(), rand_scalar(&mut rng)), ("-G".to_string(), rand_scalar(&mut rng))] };
+            let pts_b: Vec<G> = bases.iter().map(|b| self.pts.pt(*b)).collect();
+            let map: BTreeMap<String, F> = fixed.iter().cloned().collect();
+            let got = if fixed.is_empty() {
+                catch(|| midnight_circuits::verifier::Msm::<S>::from_terms(&pts_b, &scalars))
+            } else {
+                catch(|| midnight_circuits::verifier::Msm::<S>::new(&pts_b, &scalars, &map))
+            };
+            let line = format!(
+                "msm-new {} {} {}",
+                mzkh::join(&bases.iter().map(fe_hex).collect::<Vec<_>>()),
+                mzkh::join(&scalars.iter().map(fe_hex).collect::<Vec<_>>()),
+                mzkh::join(&fixed.iter().map(|(k, v)| format!("{k}={}", fe_hex(v))).collect::<Vec<_>>())
+            );
+            ctx.case(if nb == ns { "msm-new" } else { "msm-new:len-mismatch" }, true, &line, &match got { Ok(m) => msm_str(&m, &self.pts, false), Err(_) => "panic".into() });
+        }
+    }
+
     // ---------------------------------------------------------------- scale / add_msm sequences
     pub fn dual_seq(&mut self, ctx: &mut Ctx, n: usize) {
         let mut rng = ctx.rng("c15:dual-seq");
